@@ -326,7 +326,13 @@ func genC15(r *plan.Rng) *plan.Plan {
 					last.Val = vp(plan.Str(fmt.Sprintf("h%d", g.u())))
 				}
 			} else {
-				ops = append(ops, plan.Op{Kind: plan.OpRemove, Script: si, Name: []string{"extra", "inx", "nosuch"}[r.Intn(3)]})
+				ops = append(ops, plan.Op{Kind: plan.OpRemove, Script: si, Name: []string{"extra", "extra", "format", "x17", "x03", "inx", "nosuch"}[r.Intn(7)]})
+				if r.Chance(1, 2) {
+					// recompile at once and look at the new object before it runs
+					dst := r.Intn(p.Slots)
+					ops = append(ops, plan.Op{Kind: plan.OpCompile, Script: si, Dst: dst}, g.readOp(dst), g.readOp(dst))
+					live = append(live, dst)
+				}
 			}
 		case x < 9:
 			ops = append(ops, g.setOp(live[r.Intn(len(live))]))
